@@ -280,6 +280,10 @@ M = [
  dict(name="boxed_adc_assign_debug_only_c11", prop="C11", file="src/uint/boxed/add.rs",
       old="        assert!(\n            self.bits_precision() >= (rhs.as_ref().len() as u32 * Limb::BITS),", new="        debug_assert!(\n            self.bits_precision() >= (rhs.as_ref().len() as u32 * Limb::BITS),",
       expect="c11.docpanic|uint::boxed::add::<impl uint::boxed::BoxedUint>::adc_assign"),
+ # --- reverse of repo fix f0fd316
+ dict(name="radix_encoder_truncating_shift_compare", prop="C17", file="src/uint/encoding.rs",
+      old="                if ((limbs[limb_count - 1].0 as WideWord) << lshift) < div_limb.0 as WideWord {", new="                if limbs[limb_count - 1] << lshift < div_limb {",
+      expect="c17.shlcmp|uint::encoding::RadixDivisionParams::encode_limbs"),
 ]
 
 def main():
